@@ -252,7 +252,15 @@ pub fn run_c11(out: &mut Out, tier: &str, rng: &mut Rng) {
                 if !thorough && src != da && src != sa && src % 16 != 5 && src != 0xFF && src != 0xFE && src != 0 {
                     continue;
                 }
-                let dests: Vec<u8> = if (pgn >> 8) & 0xFF >= 240 { vec![0] } else { vec![da, 0xFF, da.wrapping_add(1), sa] };
+                // destination classes: the unit, broadcast, the null address next to it, a neighbour, the daemon, zero
+                // (thorough: every destination for frames from the unit itself)
+                let dests: Vec<u8> = if (pgn >> 8) & 0xFF >= 240 {
+                    vec![0]
+                } else if thorough && src == da {
+                    (0..=255).collect()
+                } else {
+                    vec![da, 0xFF, 0xFE, da.wrapping_add(1), sa, 0x00]
+                };
                 for dest in dests {
                     // every accepting data pattern from every selected source: a parser that accepts a message class
                     // without a source check shows only with that class's payload
